@@ -1672,11 +1672,11 @@ SyntaxVisitor::Action TypeChecker::visitAssignmentExpression(
             return visitBinaryExpression_Addition(node, leftTy, rightTy);
         case SyntaxKind::MinusEqualsToken:
             return visitBinaryExpression_Subtraction(node, leftTy, rightTy);
-        case SyntaxKind::LessThanEqualsToken:
-        case SyntaxKind::GreaterThanEqualsToken:
+        case SyntaxKind::LessThanLessThanEqualsToken:
+        case SyntaxKind::GreaterThanGreaterThanEqualsToken:
             return visitBinaryExpression_BitwiseShift(node, leftTy, rightTy);
         case SyntaxKind::AmpersandEqualsToken:
-        case SyntaxKind::ExclamationEqualsToken:
+        case SyntaxKind::BarEqualsToken:
         case SyntaxKind::CaretEqualsToken:
             return visitBinaryExpression_Bitwise(node, leftTy, rightTy);
         default:
